@@ -72,7 +72,7 @@ def run(model, res, tier):
     res.rule('R12', 'the tree is built by the grammar from the formula as written: no rewriting pass in front of the lexer (shared with C05.R9), and '
              'every path of parse() for a non-empty formula hands it to the grammar parser (no guard that answers for the grammar)')
     res.rule('R13', 'the leaves and operator applications of the tree have their exact values: numeric literals convert exactly (C05.R5), text operands '
-             'act as the number they spell - zero included - or give #VALUE! (C06.R4, C06.R9)')
+             'act as the number they spell - zero included - or give #VALUE! (C06.R4, C06.R9); & joins the text of its operands verbatim (C06.R7)')
     res.rule('R9', 'the parse consumes a private token stream: the tree is built from all tokens of the formula even when a callback evaluates another formula (shared with C03.R1)')
     res.assumptions += ['A3 ply 3.11: function tokens are tried in definition order; yacc resolves S/R conflicts by the precedence table']
     res.trusted += ['ply.yacc Grammar/LRGeneratedTable as table generator', 'CPython ast', 're._parser']
@@ -106,6 +106,8 @@ def run(model, res, tier):
         _E = dict((msg, n) for n, msg in _singles.items())
         H.borrow(res, 'R13', 'text to number', lambda tmp: c06._to_number(model, tmp, _opq))
         H.borrow(res, 'R13', 'text operands', lambda tmp: c06._text_and_zero(model, tmp, c, g, _acts, _opq, _E))
+        # ... and of & nodes: the text of an operand is the operand's text (an intermediate result "00" stays "00": 0&0&1 is "001")
+        H.borrow(res, 'R13', 'concatenation operands', lambda tmp: c06._concat(model, tmp, c, g, _acts, _opq))
     except AnalysisError as e:
         res.notes.append('C04.R13: undecided (%s)' % e)
     H.safely(res, 'R10', 'r10', _r10, model, res, g)
